@@ -91,6 +91,23 @@ CLAIMED["C07"] = dict(
    technique="Coq proof (lists/index maps, axiom-free) + extracted-model exact correspondence",
    design="DESIGN.md section 4, C07")
 
+CLAIMED["C18"] = dict(
+   text="Axiom-free Coq theorems over a shape-level executable model of Distribution.log_prob / sample (with the "
+        "batching loop) / sample_and_log_prob and of Flow's merge-invert-split pipeline, using the same "
+        "merge/split/repeat_rows model as C20: log_prob returns one value per row and rejects a context with a "
+        "different row count with ValueError; sample gives [n; event] / [rows; n; event]; batching by ANY batch size "
+        "(dividing n or not) yields exactly the unbatched shape, with and without context; non-positive and "
+        "non-integer counts are TypeErrors; sample_and_log_prob returns matching shapes; a flow's _sample has the "
+        "base distribution's shape. The count checks, the // and % batching arithmetic and the concatenation "
+        "dimension are regenerated from distributions/base.py on every run; shapes and exception classes of every "
+        "distribution and flow class are compared exactly with the extracted model over n x batch_size x context rows.",
+   note="Trusted: Coq kernel (no axioms); translator (Gen/DistBase.v, Gen/Typechecks.v); extraction; harness. "
+        "'Batching does not change the distribution' is covered only as far as shapes (independent draws from the "
+        "same _sample; RNG not modelled). bool counts (True == 1) are accepted by the library and excluded from the "
+        "comparison.",
+   technique="Coq proof (shape arithmetic, axiom-free) + AST translator + extracted-model exact correspondence",
+   design="DESIGN.md section 4, C18")
+
 def main():
     checks = []
     for pid in ALL:
